@@ -204,12 +204,13 @@ def build_query(case, es, ps):
                 return e.n == t
         if c in ("elem", "both"):
             conds.append(gt(case["thr"]))
+        sw = case.get("swap")       # operands of the connective in the other order (C18)
         if c == "elem_or":
-            conds.append(or_(gt(case["thr"]), eq(t2)))
+            conds.append(or_(eq(t2), gt(case["thr"])) if sw else or_(gt(case["thr"]), eq(t2)))
         if c == "elem_stacked":
-            conds += [ge(0), gt(case["thr"])]
+            conds += [gt(case["thr"]), ge(0)] if sw else [ge(0), gt(case["thr"])]
         if c == "elem_and":
-            conds.append(and_(ge(t2), le(case["thr"] + 1)))
+            conds.append(and_(le(case["thr"] + 1), ge(t2)) if sw else and_(ge(t2), le(case["thr"] + 1)))
         if c == "elem_not":
             conds.append(not_(and_(gt(case["thr"]), p.k > case["kthr"])))
         if c == "elem_then_parent_or":
